@@ -23,6 +23,7 @@
 struct verif_in {
 	int conf_mode;         /* what state_config finds: 0 (3-parity ...) or 1 (z-parity) */
 	int has_lockfile, skip_lock, lock_ret, lock_errno;
+	int diff_ret;
 	int need_write_after_scan, need_write_after_sync, force_content_write, kill_after_sync, sync_ret, has_run, run_ret, skip_self;
 };
 VERIF_DECLARE_IN
@@ -30,7 +31,7 @@ VERIF_DECLARE_IN
 static unsigned g_ord;
 static unsigned g_when_init, g_when_config, g_when_mode, g_when_lock, g_when_read, g_when_scan, g_when_refresh, g_when_sync, g_when_write;
 static int g_mode_arg = -1, g_mode_calls;
-static int g_refusal_due, g_exit_calls;
+static int g_refusal_due, g_exit_calls, g_expected_code;
 static struct snapraid_state *g_state_seen;
 
 static void verif_exit(int code)
@@ -38,6 +39,8 @@ static void verif_exit(int code)
 	++g_exit_calls;
 	VERIF_ASSERT(g_refusal_due, "the command stops here only when it must");
 	VERIF_ASSERT(code != 0, "a refusal ends with a failing status");
+	if (g_expected_code)
+		VERIF_ASSERT(code == g_expected_code, "diff announces differences with exit status 2");
 #ifdef VERIF_CBMC
 	__CPROVER_assume(0);
 #else
@@ -79,6 +82,8 @@ static int v_state_sync(struct snapraid_state *state, block_off_t blockstart, bl
 		state->need_write = 1;
 	return IN.sync_ret ? -1 : 0;
 }
+static unsigned g_when_diff;
+static int v_state_diff(struct snapraid_state *state) { (void)state; g_when_diff = ++g_ord; return IN.diff_ret; }
 static void v_state_write(struct snapraid_state *state) { (void)state; g_when_write = ++g_ord; }
 static void memory(void) { }
 static void signal_init(void) { }
@@ -95,10 +100,12 @@ static unsigned v_sleep(unsigned s) { (void)s; return 0; }
 #define state_refresh v_state_refresh
 #define state_sync v_state_sync
 #define state_write v_state_write
+#define state_diff v_state_diff
 #define system v_system
 #define sleep v_sleep
 #include "region_main_config.c"
 #include "region_main_sync.c"
+#include "region_main_diff.c"
 #undef exit
 #undef state_init
 #undef state_config
@@ -109,6 +116,7 @@ static unsigned v_sleep(unsigned s) { (void)s; return 0; }
 #undef state_refresh
 #undef state_sync
 #undef state_write
+#undef state_diff
 #undef system
 #undef sleep
 
@@ -155,6 +163,19 @@ void h_main_sync(void)
 		VERIF_ASSERT(g_when_write > g_when_sync, "the content file is written after the parity was updated");
 	VERIF_ASSERT((g_when_write != 0) == (!IN.kill_after_sync && (IN.need_write_after_scan || IN.need_write_after_sync || IN.force_content_write)),
 		"the content file is written iff something changed (or the write is forced)");
+	VERIF_CANARY();
+}
+
+
+void h_main_diff(void)
+{
+	VERIF_INPUTS();
+	g_ord = 0;
+	g_refusal_due = IN.diff_ret > 0;
+	g_expected_code = 2;
+	region_main_diff(&ST);
+	VERIF_ASSERT(!g_refusal_due, "diff ends with status 2 when state_diff reports differences");
+	VERIF_ASSERT(g_when_read != 0 && g_when_diff > g_when_read && g_when_write == 0 && g_when_sync == 0, "diff reads the content, compares, and neither syncs nor writes");
 	VERIF_CANARY();
 }
 
